@@ -9,6 +9,8 @@ use super::{ParseErrorSpecifics, ParseOk, ParseResult, ParseState};
 /// Should always look just like all the other generated parse functions.
 #[inline(always)]
 pub fn parse_char<_GT>(state: ParseState, _global: _GT) -> ParseResult<char> {
+    #[cfg(peginator_verif)]
+    crate::verif::tick();
     let result = state.s().chars().next().ok_or_else(|| {
         state
             .clone()
@@ -29,6 +31,8 @@ pub fn parse_char<_GT>(state: ParseState, _global: _GT) -> ParseResult<char> {
 #[inline]
 #[allow(non_snake_case)]
 pub fn parse_Whitespace<_GT>(state: ParseState, _global: _GT) -> ParseResult<()> {
+    #[cfg(peginator_verif)]
+    crate::verif::tick();
     let mut state = state;
     while !state.is_empty() {
         if state.s().as_bytes()[0].is_ascii_whitespace() {
@@ -50,6 +54,8 @@ pub fn parse_string_literal<'a>(
     state: ParseState<'a>,
     s: &'static str,
 ) -> ParseResult<'a, &'static str> {
+    #[cfg(peginator_verif)]
+    crate::verif::tick();
     if !state.s().starts_with(s) {
         Err(state.report_error(ParseErrorSpecifics::ExpectedString { s }))
     } else {
@@ -65,6 +71,8 @@ pub fn parse_string_literal<'a>(
 
 #[inline(always)]
 pub fn parse_character_literal(state: ParseState, c: char) -> ParseResult<char> {
+    #[cfg(peginator_verif)]
+    crate::verif::tick();
     if c.is_ascii() {
         // fast path
         if state.is_empty() || state.s().as_bytes()[0] != c as u8 {
@@ -94,6 +102,8 @@ pub fn parse_character_literal(state: ParseState, c: char) -> ParseResult<char> 
 
 #[inline(always)]
 pub fn parse_character_range(state: ParseState, from: char, to: char) -> ParseResult<char> {
+    #[cfg(peginator_verif)]
+    crate::verif::tick();
     if from.is_ascii() && to.is_ascii() {
         // fast path
         if state.is_empty() {
@@ -144,6 +154,8 @@ pub fn parse_string_literal_insensitive<'a>(
     state: ParseState<'a>,
     s: &'static str,
 ) -> ParseResult<'a, &'static str> {
+    #[cfg(peginator_verif)]
+    crate::verif::tick();
     let prefix = state
         .s()
         .bytes()
@@ -164,6 +176,8 @@ pub fn parse_string_literal_insensitive<'a>(
 
 #[inline(always)]
 pub fn parse_character_literal_insensitive(state: ParseState, c: char) -> ParseResult<char> {
+    #[cfg(peginator_verif)]
+    crate::verif::tick();
     // ASCII Only !
     if state.is_empty() || state.s().as_bytes()[0].to_ascii_lowercase() != c as u8 {
         Err(state.report_error(ParseErrorSpecifics::ExpectedCharacter { c }))
@@ -180,6 +194,8 @@ pub fn parse_character_literal_insensitive(state: ParseState, c: char) -> ParseR
 
 #[inline(always)]
 pub fn parse_end_of_input(state: ParseState) -> ParseResult<()> {
+    #[cfg(peginator_verif)]
+    crate::verif::tick();
     if state.is_empty() {
         Ok(ParseOk { result: (), state })
     } else {
